@@ -223,7 +223,12 @@ func polOpt(p int, node bool) []el.Option {
 	return []el.Option{el.WithPipelineRegistrationPolicy(pol)}
 }
 
-func (w *world) apply(opid int, op Op) opRec {
+// idBuf is ONE buffer per calling goroutine in which it builds the NodeIDs of every pipeline definition it registers: the slice handed
+// to RegisterPipeline stays the caller's, the next registration of the goroutine overwrites its elements in place; after every
+// second call the elements (and the option list) are scribbled over right away.  What the Broker needs later it must have copied.
+type idBuf [8]el.NodeID
+
+func (w *world) apply(opid int, op Op, buf *idBuf) opRec {
 	rec := opRec{op: op, id: opid}
 	ctx, release := callerCtx(context.WithValue(context.Background(), opKey{}, opid), op.Ctx, op.D)
 	defer release()
@@ -245,14 +250,23 @@ func (w *world) apply(opid int, op Op) opRec {
 		rec.ret = w.tick()
 		ok = err == nil
 	case "regpipe":
-		ids := make([]el.NodeID, len(op.IDs))
-		for i, x := range op.IDs {
-			ids[i] = nid(x)
+		ids := buf[:0]
+		for _, x := range op.IDs {
+			ids = append(ids, nid(x)) // more than 8 ids: a slice of its own
 		}
+		opts := polOpt(op.Pol, false)
 		rec.inv = w.tick()
-		err = w.b.RegisterPipeline(el.Pipeline{PipelineID: pid(op.Pid), EventType: ety(op.Ety), NodeIDs: ids}, polOpt(op.Pol, false)...)
+		err = w.b.RegisterPipeline(el.Pipeline{PipelineID: pid(op.Pid), EventType: ety(op.Ety), NodeIDs: ids}, opts...)
 		rec.ret = w.tick()
 		ok = err == nil
+		if opid%2 == 0 {
+			for i := range ids {
+				ids[i] = el.NodeID(fmt.Sprintf("reused-buffer-%d", i))
+			}
+		}
+		for i := range opts {
+			opts[i] = nil
+		}
 	case "rmpipe":
 		rec.inv = w.tick()
 		err = w.b.RemovePipeline(ety(op.Ety), pid(op.Pid))
@@ -435,9 +449,10 @@ func runCaseRaw(c Case, readers bool) (out outcome) {
 		types = []int{1, 2}
 	}
 	opid := 0
+	var setupBuf idBuf
 	for _, op := range c.Setup {
 		opid++
-		out.ops = append(out.ops, w.apply(opid, op))
+		out.ops = append(out.ops, w.apply(opid, op, &setupBuf))
 	}
 	var mu sync.Mutex
 	var wg sync.WaitGroup
@@ -461,9 +476,10 @@ func runCaseRaw(c Case, readers bool) (out outcome) {
 		go guard(fmt.Sprintf("thread %d", ti), func() {
 			<-start
 			var recs []opRec
+			var buf idBuf
 			for i, op := range th {
 				w.barrier(op.Bar)
-				recs = append(recs, w.apply(first+i+1, op))
+				recs = append(recs, w.apply(first+i+1, op, &buf))
 				if i%2 == 1 {
 					runtime.Gosched()
 				}
